@@ -44,6 +44,9 @@ probe buf-size     bip39.go "make([]byte, length+length/3)" "make([]byte, length
 probe salt-order   bip39.go '"mnemonic" + passphrase' 'passphrase + "mnemonic"' Bip39V.Props.Refine.MnemonicToSeed broken
 probe param-write  entropy.go "	wordIdx := new(big.Int)" "	wordIdx := new(big.Int)
 	entropy[0] = 0" Bip39V.Props.Refine.FromEntropy refused
+probe list-arm     lang.go "	case Korean:
+		return wordlist.Korean" "	case Korean:
+		return wordlist.Spanish" Bip39V.Props.Refine.LanguageList broken
 # harmless edits: must still be proved
 probe extra-local  entropy.go "csBitLen := uint(len(entropy) / 4)" "entLen := len(entropy)
 	csBitLen := uint(entLen / 4)" Bip39V.Props.Refine.FromEntropy proved
